@@ -294,7 +294,7 @@ func c11Loopback(c *Ctx) {
 				caseNo := int64(w*1000 + i)
 				names := map[uint32]string{}
 				serials := []uint32{}
-				cfg := ClientCfg{Bind: workerIP(c, w) + ":0", Broadcast: bc.Addr, Timeout: T}
+				cfg := ClientCfg{Bind: workerIP(c, w) + ":0", Broadcast: bc.Addr, Timeout: T, Debug: i%5 == 3} // every fifth client dumps its traffic (debug mode)
 				for k := 0; k < r.Pick(3); k++ {
 					s := r.Serial()
 					serials = append(serials, s)
